@@ -43,11 +43,13 @@ def gene_name(g):
     if g['cls'] == 'ensv':
         return f'ENSMUSG{g["id"]:011d}.7'
     if g['cls'] == 'sym':
-        return f'Sym{g["id"]}'
+        return SYM[g['id']]
     return f'mystery-{g["id"]}'
 
 
-MAPPER = {f'Sym{i}': f'ENSMUSG{i:011d}' for i in range(1, 6)}
+# known gene symbols; some contain a dot (like Tex19.1) and must not be taken for versioned identifiers
+SYM = {i: (f'Sym{i}' if i % 2 else f'Sym{i}.1') for i in range(1, 6)}
+MAPPER = {SYM[i]: f'ENSMUSG{i:011d}' for i in range(1, 6)}
 
 
 def build_matrix(s, rng):
